@@ -4,6 +4,7 @@ use serde_json::Value;
 pub mod c02;
 pub mod c03;
 pub mod c04;
+pub mod c05;
 pub mod c07;
 pub mod c11;
 pub mod c16;
@@ -22,6 +23,7 @@ pub fn all() -> Vec<Prop> {
         Prop { id: "C02", run: c02::run, replay: c02::replay, rule: c02::RULE, assumptions: &["the harness writer (engine/writer.rs) produces well-formed incremental updates: generation numbers never decrease, freed numbers are reused with the bumped generation, object 0 heads the free list", "hybrid-reference files and compressed objects with generation > 0 are not generated"] },
         Prop { id: "C03", run: c03::run, replay: c03::replay, rule: c03::RULE, assumptions: &["the printer in harness/src/engine/printer.rs is my reading of ISO 32000-1 7.2-7.3", "std's decimal->f32 conversion is correctly rounded (used to define the denoted value of a real)"] },
         Prop { id: "C04", run: c04::run, replay: c04::replay, rule: c04::RULE, assumptions: &["placement strings (\"N G obj\\n\" .. \"endobj\\n\") mirror Storage::save"] },
+        Prop { id: "C05", run: c05::run, replay: c05::replay, rule: c05::RULE, assumptions: &["harness encoders follow ISO 32000-1 7.4 (LZW cross-checked against weezl in unit tests; Flate from flate2)"] },
         Prop { id: "C07", run: c07::run, replay: c07::replay, rule: c07::RULE, assumptions: &["trees are well-formed by construction (accurate /Count, correct /Parent, acyclic)"] },
         Prop { id: "C11", run: c11::run, replay: c11::replay, rule: c11::RULE, assumptions: &["object streams and filters are produced by the harness's own writer and encoders"] },
         Prop { id: "C16", run: c16::run, replay: c16::replay, rule: c16::RULE, assumptions: &["reference decoders in harness/src/engine/filters.rs follow ISO 32000-1 7.4 (LZW cross-checked against weezl with code size 8 in unit tests)", "flate2/miniz_oxide is a correct zlib implementation"] },
